@@ -210,3 +210,18 @@ Print Assumptions C16_finishes.
 Print Assumptions C16_close_nonreading_blocks.
 Print Assumptions C16_container_ok.
 Print Assumptions C16_close_refuted_nonreading.
+
+(* The runner's accounting of announce_peer / put datagrams as they leave (harness line `lksent`, cases of
+   lookups_limiter.go): an accepted sequence of observed datagrams is a sub-multiset of the sends the model expects
+   (what is left over was cancelled by Close / ctx), and every sub-multiset, in any order, is accepted - so a second
+   datagram to one node, a foreign token or a node outside the closest set is rejected exactly when it is wrong. *)
+From Dht Require Import RunLookupsSends RunLookupsSendsProofs.
+From Coq Require Import Permutation.
+Theorem C16_sends_accounting_sound obs expected rest :
+  rls_take_all obs expected = Some rest -> Permutation expected (obs ++ rest).
+Proof. exact (rls_take_all_sound obs expected rest). Qed.
+Theorem C16_sends_accounting_complete obs expected rest :
+  Permutation expected (obs ++ rest) -> exists rest', rls_take_all obs expected = Some rest' /\ Permutation rest' rest.
+Proof. exact (rls_take_all_complete obs expected rest). Qed.
+Print Assumptions C16_sends_accounting_sound.
+Print Assumptions C16_sends_accounting_complete.
